@@ -1,7 +1,7 @@
 """C05 - taproot: the root binds key and script; key path and script path are exact."""
 from __future__ import annotations
 import hashlib
-from .. import env, hyp, optable as O, refasm as R, render, ed25519_ref as E
+from .. import env, hyp, optable as O, refasm as R, render, ed25519_ref as E, monitors
 from ..recorder import Rec, CID, push, observed
 from .c01 import script_tree
 from .c02 import msg_of
@@ -133,6 +133,8 @@ def check_taproot(case):
     fails = []
     seed, body, fields, flag, allowed = case['seed'], case['body'], case['fields'], case['flag'] & 0xff, case['allowed'] & 0xff
     kind, k1 = case['kind'], case.get('k1', 0)
+    if body not in BODIES and not monitors.within_budget([body], fields):
+        return fails, {'skip': True}          # a committed script whose work explodes (see monitors.BudgetMonitor)
     tag = b'\x77\x01'
     Sb = observed(tag, body)
     S = T.Script.from_bytes(Sb)
@@ -298,6 +300,8 @@ def check_equiv(case):
     tail = {'none': b'', 'key': T.make_taproot_witness_keyspend(seed, dict(fields), S).bytes,
             'script': T.make_taproot_witness_scriptspend(pk, S).bytes}[case['tail']]
     w = adv + tail
+    if not monitors.within_budget([adv], fields):
+        return fails, {'skip': True}          # a witness whose work explodes
     try:
         tp, st_, _ = F.run_script(w, dict(fields), contracts={CID: Rec()})
         if tp.callstack_count > 100 or len(st_) > 900:
@@ -348,9 +352,10 @@ def body_st(draw):
         return draw(st.sampled_from(BODIES))
     t = draw(script_tree(2, True))
     try:
-        return R.encode(render.lower(t))[:200] or BODIES[0]
+        b = R.encode(render.lower(t))
     except R.NotEncodable:
         return BODIES[0]
+    return b if 0 < len(b) <= 200 else BODIES[0]          # never truncate: a cut instruction is not a script
 
 
 @st.composite
